@@ -31,7 +31,7 @@ pids="$pids $!"
 fail=0
 for p in $pids; do wait $p || fail=1; done
 if [ $fail != 0 ]; then cat "$OUT"/*.log | head -50; echo "BUILD-FAILED: /repo does not compile"; exit 2; fi
-WRAP="-Wl,--wrap=malloc,--wrap=calloc,--wrap=realloc,--wrap=reallocarray,--wrap=free,--wrap=mmap,--wrap=mremap,--wrap=munmap,--wrap=open,--wrap=fstat,--wrap=fileno,--wrap=isatty,--wrap=lseek,--wrap=fdopen,--wrap=stat,--wrap=close,--wrap=read,--wrap=write,--wrap=fopen,--wrap=fwrite,--wrap=fclose,--wrap=exit,--wrap=pthread_once,--wrap=pthread_mutex_lock,--wrap=time,--wrap=strtok,--wrap=strtok_r,--wrap=strncpy,--wrap=strcpy,--wrap=strcat,--wrap=strstr,--wrap=strchr,--wrap=strrchr,--wrap=strcmp,--wrap=strncmp,--wrap=strcasecmp,--wrap=strncasecmp,--wrap=strlen,--wrap=strtoul,--wrap=strtol,--wrap=strtoull,--wrap=atoi,--wrap=rand,--wrap=strerror,--wrap=getenv,--wrap=localtime,--wrap=gmtime,--wrap=setlocale,--wrap=memchr"
+WRAP="-Wl,--wrap=malloc,--wrap=calloc,--wrap=realloc,--wrap=reallocarray,--wrap=free,--wrap=mmap,--wrap=mremap,--wrap=munmap,--wrap=open,--wrap=fstat,--wrap=fileno,--wrap=isatty,--wrap=lseek,--wrap=fdopen,--wrap=stat,--wrap=lstat,--wrap=fsync,--wrap=fdatasync,--wrap=flock,--wrap=rename,--wrap=unlink,--wrap=close,--wrap=read,--wrap=write,--wrap=fopen,--wrap=fwrite,--wrap=fclose,--wrap=exit,--wrap=pthread_once,--wrap=pthread_mutex_lock,--wrap=time,--wrap=strtok,--wrap=strtok_r,--wrap=strncpy,--wrap=strcpy,--wrap=strcat,--wrap=strstr,--wrap=strchr,--wrap=strrchr,--wrap=strcmp,--wrap=strncmp,--wrap=strcasecmp,--wrap=strncasecmp,--wrap=strlen,--wrap=strtoul,--wrap=strtol,--wrap=strtoull,--wrap=atoi,--wrap=rand,--wrap=strerror,--wrap=getenv,--wrap=localtime,--wrap=gmtime,--wrap=setlocale,--wrap=memchr"
 OBJS="$OUT/lib_*.o $OUT/libcall.o"
 [ "$WHAT" = cli ] && OBJS="$OBJS $OUT/cli_asmline.o"
 clang++ $SANFLAGS $WRAP $HARNESS/$SAN/*.o $OBJS -lpthread -o "$OUT/alsim" 2>"$OUT/link.log" || { cat "$OUT/link.log" | head -40; echo "BUILD-FAILED: link"; exit 2; }
